@@ -52,10 +52,10 @@ def env : Env Inst State where
   done := done
 
 /-- `MDPPEnv.__init__`: `super().__init__(**kwargs)` builds a *default* `DPPGenerator` and copies its
-`max_decaps` into the environment; the generator handed to `MDPPEnv` replaces `self.generator`
-afterwards but `self.max_decaps` is not refreshed.  `dflt` = `DPPGenerator().max_decaps`,
-`given` = `generator.max_decaps`. -/
-def mdppEnvQuota (dflt _given : Int) : Int := dflt
+`max_decaps` (`dflt`) into the environment; after `self.generator = generator` the constructor
+re-assigns `self.max_decaps = self.generator.max_decaps` (`given`) — upstream fix 5c8314b; before it
+the default value stayed in place. -/
+def mdppEnvQuota (_dflt given : Int) : Int := given
 
 /-- `DPPEnv.__init__`: `self.max_decaps = self.generator.max_decaps` with the generator it was given. -/
 def dppEnvQuota (_dflt given : Int) : Int := given
